@@ -2,11 +2,151 @@
 
 package mp4
 
-// c01DontCare returns, for the body of a box (bytes after the box header), a mask of the bits
-// that decode->encode is allowed to change: ISO reserved / pre_defined fields, unity matrices
-// and listed normalisations. Everything outside the mask must survive bit-for-bit.
-// Each entry cites the clause that makes the bits don't-care.
-func c01DontCare(boxType string, body []byte) []byte {
+import "github.com/Eyevinn/mp4ff/internal/vfy"
+
+// The committed don't-care list of property C01.
+//
+// c01DontCare returns, for the body of a box (the bytes after the box header), a mask of the
+// bits that decode -> encode is allowed to change. Everything outside the mask must survive
+// bit-for-bit. Every entry cites the clause that makes the bits don't-care:
+//   * ISO/IEC 14496-12 "reserved" / "pre_defined" fields (readers shall ignore them, writers
+//     shall write the given constant),
+//   * the transformation matrices of mvhd/tkhd (the property lists the unity matrices),
+//   * padding of the fixed 32-byte compressorname field,
+//   * ISO/IEC 14496-15 reserved bits of the AVC configuration record,
+//   * one size normalisation: an mdat box whose size field exceeds the available data is
+//     truncated to the data that is present (documented in DecodeBoxSR: fetching only the first
+//     kilobytes of a file).
+// The large-size header normalisation (64-bit size written back as 32-bit) is handled by the
+// harness itself.
+//
+// c01Reviewed lists the box types whose layout has been reviewed against the standard: only for
+// those is byte-level losslessness asserted. For every other type the harness still asserts
+// the fixed-point part of C01 (decode(encode(decode(x))) equals decode(x) structurally and
+// encodes to the same bytes). The unreviewed types are reported in the evidence.
+var c01Reviewed = map[string]bool{
+	"mvhd": true, "tkhd": true, "mdhd": true, "hdlr": true, "smhd": true, "vmhd": true, "nmhd": true, "sthd": true,
+	"stts": true, "ctts": true, "stsc": true, "stsz": true, "stco": true, "co64": true, "stss": true, "sdtp": true,
+	"sbgp": true, "elst": true, "mehd": true, "trex": true, "mfhd": true, "tfhd": true, "tfdt": true, "trun": true,
+	"sidx": true, "ssix": true, "subs": true, "emsg": true, "prft": true, "ftyp": true, "styp": true, "free": true, "skip": true,
+	"mdat": true, "mfro": true, "tfra": true, "saio": true, "saiz": true, "senc": true, "pssh": true, "tenc": true,
+	"schm": true, "frma": true, "btrt": true, "pasp": true, "clap": true, "colr": true, "kind": true, "url ": true,
+	"avcC": true, "zzzz": true, "uuid": true, "cslg": true, "payl": true, "sttg": true, "iden": true, "ctim": true,
+	"avc1": true, "avc3": true, "hvc1": true, "hev1": true, "encv": true, "vp08": true, "vp09": true, "av01": true,
+	"mp4a": true, "enca": true, "ac-3": true, "ec-3": true,
+	// pure containers (children with arbitrary, symbolic headers)
+	"moov": true, "trak": true, "mdia": true, "minf": true, "dinf": true, "stbl": true, "mvex": true, "moof": true,
+	"traf": true, "mfra": true, "edts": true, "udta": true, "schi": true, "sinf": true,
+}
+
+// c01FullBox lists the reviewed types whose first body byte is the FullBox version.
+var c01FullBox = map[string]bool{
+	"mvhd": true, "tkhd": true, "mdhd": true, "hdlr": true, "smhd": true, "vmhd": true, "nmhd": true, "sthd": true,
+	"stts": true, "ctts": true, "stsc": true, "stsz": true, "stco": true, "co64": true, "stss": true, "sdtp": true,
+	"sbgp": true, "elst": true, "mehd": true, "trex": true, "mfhd": true, "tfhd": true, "tfdt": true, "trun": true,
+	"sidx": true, "ssix": true, "subs": true, "emsg": true, "prft": true, "mfro": true, "tfra": true, "saio": true,
+	"saiz": true, "senc": true, "pssh": true, "tenc": true, "schm": true, "kind": true, "url ": true, "cslg": true,
+}
+
+func c01Fill(mask []byte, from, to int, m byte) {
+	for i := from; i < to && i < len(mask); i++ {
+		mask[i] |= m
+	}
+}
+
+// c01MaskMdat marks the size field of every mdat box in the decoded tree (position pos inside
+// the body) as normalisable.
+func c01MaskMdat(b Box, pos int, mask []byte) {
+	if m, ok := b.(*MdatBox); ok {
+		c01Fill(mask, pos, pos+4, 0xff)
+		if m.LargeSize {
+			c01Fill(mask, pos+8, pos+16, 0xff)
+		}
+		return
+	}
+	cb, ok := b.(ContainerBox)
+	if !ok {
+		return
+	}
+	children := cb.GetChildren()
+	var total uint64
+	for _, c := range children {
+		total += c.Size()
+	}
+	if total+8 > b.Size() {
+		return
+	}
+	cpos := pos + int(b.Size()-total)
+	for _, c := range children {
+		c01MaskMdat(c, cpos, mask)
+		cpos += int(c.Size())
+	}
+}
+
+func c01DontCare(boxType string, body []byte, b Box) []byte {
 	mask := make([]byte, len(body))
+	// positions in the body are relative to the end of the 8-byte header
+	c01MaskMdat(b, -8, mask)
+	v1 := len(body) > 0 && body[0] == 1
+	switch boxType {
+	case "mvhd": // 14496-12 8.2.2: reserved(16), reserved(32)[2], matrix, pre_defined(32)[6]
+		if v1 {
+			c01Fill(mask, 38, 108, 0xff)
+		} else {
+			c01Fill(mask, 26, 96, 0xff)
+		}
+	case "tkhd": // 8.3.2: reserved(32), reserved(32)[2], reserved(16), matrix
+		if v1 {
+			c01Fill(mask, 24, 28, 0xff)
+			c01Fill(mask, 36, 44, 0xff)
+			c01Fill(mask, 50, 88, 0xff)
+		} else {
+			c01Fill(mask, 16, 20, 0xff)
+			c01Fill(mask, 24, 32, 0xff)
+			c01Fill(mask, 38, 76, 0xff)
+		}
+	case "mdhd": // 8.4.2: pad bit, pre_defined(16)
+		if v1 {
+			c01Fill(mask, 32, 33, 0x80)
+			c01Fill(mask, 34, 36, 0xff)
+		} else {
+			c01Fill(mask, 20, 21, 0x80)
+			c01Fill(mask, 22, 24, 0xff)
+		}
+	case "hdlr": // 8.4.3: pre_defined(32), reserved(32)[3]
+		c01Fill(mask, 4, 8, 0xff)
+		c01Fill(mask, 12, 24, 0xff)
+	case "smhd": // 12.2.2: reserved(16)
+		c01Fill(mask, 6, 8, 0xff)
+	case "tfra": // 8.8.10: reserved(26)
+		c01Fill(mask, 8, 11, 0xff)
+		c01Fill(mask, 11, 12, 0xc0)
+	case "tenc": // 23001-7 8.2: reserved(8), and reserved(8) in version 0
+		c01Fill(mask, 4, 5, 0xff)
+		if len(body) > 5 {
+			mask[5] |= vfy.IteU8(body[0] == 0, 0xff, 0)
+		}
+	case "avcC": // 14496-15 5.3.3.1: reserved '111111'b, reserved '111'b
+		c01Fill(mask, 4, 5, 0xfc)
+		c01Fill(mask, 5, 6, 0xe0)
+	case "avc1", "avc3", "hvc1", "hev1", "encv", "vp08", "vp09", "av01":
+		// 8.5.2 SampleEntry reserved(8)[6]; 12.1.3 VisualSampleEntry pre_defined(16), reserved(16),
+		// pre_defined(32)[3], reserved(32), compressorname padding, pre_defined(16) = -1
+		c01Fill(mask, 0, 6, 0xff)
+		c01Fill(mask, 8, 24, 0xff)
+		c01Fill(mask, 36, 40, 0xff)
+		if len(body) >= 78 {
+			n := body[42]
+			for i := 43; i < 74; i++ {
+				mask[i] |= vfy.IteU8(byte(i-43) >= n, 0xff, 0)
+			}
+			c01Fill(mask, 76, 78, 0xff)
+		}
+	case "mp4a", "enca", "ac-3", "ec-3":
+		// 12.2.3 AudioSampleEntry: reserved(8)[6], reserved(32)[2], pre_defined(16), reserved(16)
+		c01Fill(mask, 0, 6, 0xff)
+		c01Fill(mask, 8, 16, 0xff)
+		c01Fill(mask, 20, 24, 0xff)
+	}
 	return mask
 }
